@@ -1148,6 +1148,81 @@ def check_invalid(ctx, lean):
     ctx.ob(name2, bad2 is None, 'tie', bad2 or 'ok')
 
 
+def check_invalid_large(ctx, lean):
+    """size variety: big tables whose ONLY NaN sits late (last row / middle / row 50000 / row 50001).  The fit must
+    raise before any fitting, so on a correct tree this costs only the validation."""
+    name = 'corr:check_valid_values-large'
+    if lean is None:
+        return ctx.ob(name, False, 'tie', 'driver unavailable')
+    from copulas.multivariate import GaussianMultivariate, VineCopula
+    import copulas.univariate as U
+    models = [('GaussianMultivariate(GaussianUnivariate)', lambda: GaussianMultivariate(distribution=U.GaussianUnivariate), False),
+              ('VineCopula(center)', lambda: _quiet(VineCopula, 'center'), True)]
+    later = mv_frame({'n': 35, 'k': 2, 'seed': 12})
+    bad = None
+    for n in (50001, 60001, 100003):
+        rs = np.random.RandomState(n)
+        base = rs.normal(size=(n, 2))
+        base[:, 1] = 0.6 * base[:, 0] + 0.8 * base[:, 1]
+        for where, row in (('last', n - 1), ('middle', n // 2), ('row-50000', 50000), ('row-50001', 50001)):
+            if row >= n:
+                continue
+            for label, mk, is_vine in models:
+                for container in ('DataFrame',) if is_vine else ('DataFrame', 'ndarray'):
+                    W = base.copy()
+                    W[row, 0 if is_vine else row % 2] = np.nan      # vine: first column, so that a wrongly started fit stops at once
+                    X = pd.DataFrame(W, columns=['a', 'b']) if container == 'DataFrame' else W
+                    m = mk()
+                    pred = lean.ask(f'life valid {n} 1 1 0 ok')
+                    before = canon(m.__dict__)
+                    try:
+                        _quiet(m.fit, X)
+                        out = 'returned'
+                    except Exception as e:  # noqa
+                        out = vc.exc_kind(e) if isinstance(e, ValueError) else type(e).__name__
+                    changed = canon(m.__dict__) != before
+                    real = f'ok fitted={int(m.fitted)}' if out == 'returned' else f'err {out} fitted={int(m.fitted)} changed={int(changed)}'
+                    ctx.case(('invalid-large', label, n, where, container))
+                    ctx.count(f'invalid-large:{where}')
+                    cls = cls_of(label)
+                    inp = {'model': label, 'rows': n, 'columns': 2, 'only_nan_at_row': row, 'position': where, 'container': container,
+                           'data': f'RandomState({n}).normal(size=({n},2)), column 1 = 0.6*c0 + 0.8*c1'}
+                    if real != pred:
+                        bad = bad or dict(inp, real=real, lean=pred)
+                    if out != 'ValueError':
+                        ctx.fail_input(f'{cls}.fit', inp, {'fit': out, 'fitted': bool(m.fitted)},
+                                       'training data containing NaN raise ValueError, wherever the NaN is',
+                                       f'{cls}.fit:invalid-training-data-not-rejected:late-row')
+                    elif changed or m.fitted:
+                        ctx.fail_input(f'{cls}.fit', inp, {'fitted': bool(m.fitted), 'state_changed': changed},
+                                       'a rejected fit leaves the model as it was: the validation runs before any work',
+                                       f'{cls}.fit:state-changed-by-rejected-fit:late-row')
+                    if where == 'last' and container == 'DataFrame':
+                        # unfitted afterwards, and a later valid fit equals a fresh fit
+                        after = []
+                        try:
+                            d = _quiet(m.to_dict)
+                            if not is_vine or d.get('fitted'):
+                                after.append('to_dict returned' + (' fitted' if is_vine else ''))
+                        except Exception as e:  # noqa
+                            if type(e).__name__ != 'NotFittedError':
+                                after.append('to_dict raised ' + type(e).__name__)
+                        try:
+                            with poisoned_empty(float('nan')):
+                                fresh = mk()
+                                _quiet(fit_pinned, m, later, 4)
+                                _quiet(fit_pinned, fresh, later, 4)
+                                same = mv_view(m) == mv_view(fresh)
+                        except Exception as e:  # noqa
+                            same = 'raised ' + type(e).__name__
+                        if after or same is not True:
+                            ctx.fail_input(f'{cls}.fit', inp, {'after_invalid_fit': after, 'later_valid_fit_equals_fresh': same},
+                                           'after invalid training data the model is unfitted and a later valid fit equals a fresh fit',
+                                           f'{cls}.fit:invalid-training-data-leaves-a-trace')
+                            bad = bad or dict(inp, after=after, later_fit_equals_fresh=same)
+    ctx.ob(name, bad is None, 'tie', bad or 'ok')
+
+
 # ------------------------------------------------------------------------- get_instance
 def config_view(g):
     """constructor-level configuration of an object."""
@@ -1592,6 +1667,7 @@ def _run_rest(ctx, lean, flags):
         ctx.ob('oracle:refit-multivariate', r[0] is None, 'tie', r[0] or f'ok ({r[1]} pairs)')
     _phase(ctx, 'check_unfitted', check_unfitted, ctx, lean)
     _phase(ctx, 'check_invalid', check_invalid, ctx, lean)
+    _phase(ctx, 'check_invalid_large', check_invalid_large, ctx, lean)
     _phase(ctx, 'check_get_instance', check_get_instance, ctx, lean)
     _phase(ctx, 'check_clone_indirect', check_clone_indirect, ctx)
     r = _phase(ctx, 'oracle_user_bounds', oracle_user_bounds, ctx, ctx.rng('user-bounds-run'), 1 * ctx.scale)
@@ -1642,7 +1718,7 @@ def replay(ctx, payload):
         except Exception:  # noqa
             lean = None
         try:
-            for f, a in ((check_unfitted, (ctx, lean)), (check_invalid, (ctx, lean)), (check_get_instance, (ctx, lean)),
+            for f, a in ((check_unfitted, (ctx, lean)), (check_invalid, (ctx, lean)), (check_invalid_large, (ctx, lean)), (check_get_instance, (ctx, lean)),
                          (check_clone_indirect, (ctx,)), (oracle_multi, (ctx, ctx.rng('replay'), 2))):
                 try:
                     f(*a)
